@@ -8,7 +8,7 @@ the library's recovery path and must give the section view of the intact image.
 """
 import json
 
-from ..core import env, runner, forkpool, elfraw, elfedit
+from ..core import env, runner, forkpool, elfraw, elfedit, elfbuild
 from ..core.prng import substream, run_seed, digest as pdigest, h64
 from ..core.simdisk import SimStream, SimFS, IOClock
 from ..core.canon import canon, digest as cdigest, exc_obs, jsonable
@@ -620,8 +620,15 @@ DT = dict(NULL=0, NEEDED=1, PLTRELSZ=2, HASH=4, STRTAB=5, SYMTAB=6, RELA=7, RELA
           RELRENT=37, GNU_HASH=0x6ffffef5)
 
 
+def _c09_data(name):
+    """Corpus image, or a synthetic dynamically linked image written by dst/core/elfbuild.py from the seed in its name."""
+    if name.startswith('synthdyn:'):
+        return elfbuild.build_dynamic(substream(int(name.split(':', 1)[1]), 'image'))[0]
+    return env.corpus_bytes(name)
+
+
 def _prep_c09(name):
-    data = env.corpus_bytes(name)
+    data = _c09_data(name)
     raw = elfraw.Raw(data)
     if not raw.ok or not raw.sections:
         return dict(name=name, ok=False, why='no section headers')
@@ -669,18 +676,28 @@ def _prep_c09(name):
                 has_hash=DT['HASH'] in tags, has_gnu_hash=DT['GNU_HASH'] in tags, decoy=decoy, cls=raw.cls, bo=raw.bo)
 
 
+def _prep_c09_many(names):
+    return {n: _prep_c09(n) for n in names}
+
+
 def _c09_plan(tier, seed):
     files = [r['name'] for r in env.corpus_index() if r['size'] <= (QUICK_MAX if tier == 'quick' else 600 * 1024)]
     info = {}
     for ti, (st, res) in forkpool.pmap(_prep_c09, files, timeout=120):
         if st == 'ok':
             info[files[ti]] = res
+    nsynth = 150 if tier == 'quick' else 4000
+    synth = ['synthdyn:%d' % h64(seed, 'C09-synth', k) for k in range(nsynth)]
+    for ti, (st, res) in forkpool.pmap(_prep_c09_many, [synth[i:i + 50] for i in range(0, nsynth, 50)], timeout=300):
+        if st == 'ok':
+            info.update(res)
     elig = sorted(n for n, i in info.items() if i['ok'])
     orders = 8 if tier == 'quick' else 64
     plan = []
     for n in elig:
+        no = orders if not n.startswith('synthdyn:') else 2
         for m in ('zero', 'noise', 'truncate'):
-            for k in range(orders):
+            for k in range(no):
                 plan.append((n, m, k))
         # no fault: the segment view of the intact image (string table through the section link)
         for k in range(max(2, orders // 4)):
@@ -737,7 +754,7 @@ def _view_a(data, info):
 def _c09_exec(spec):
     from elftools.elf.elffile import ELFFile
     name = spec['file']
-    data = env.corpus_bytes(name)
+    data = _c09_data(name)
     info = _ST.get('info', {}).get(name) or _prep_c09(name)
     mode = spec['fault']
     variant = None
@@ -872,7 +889,8 @@ def _c09_exec(spec):
     return dict(spec=spec, violations=violations, digest=pdigest(log, [v['key'] for v in violations]), nontrivial=fired,
                 nt_digest=pdigest(name, mode, queries, p_disp), evaluations=1, sim_time=stream.clock.seq,
                 faults={'shloss_' + mode: [1, int(fired)], **({'decoy_pointer_tag': [1, 1]} if variant else {})},
-                probes={'queries': len(queries), 'nsym_known': int(a['syms'] is not None)}, sample=None)
+                probes={'queries': len(queries), 'nsym_known': int(a['syms'] is not None), 'synthetic_image_runs': int(name.startswith('synthdyn:'))},
+                sample=None)
 
 
 def _first_diff(exp, got):
@@ -980,7 +998,8 @@ def describe(prop):
 def extra_coverage(prop, tier, agg):
     s0 = (_c11_gen(0, tier, 1) if prop == 'C11' else _c09_gen(0, tier, 0))
     s1 = (_c11_gen(0, tier, len(_ST['plan'])) if prop == 'C11' else _c09_gen(0, tier, len(_ST['plan']) - 1))
-    return dict(samples=[s0, s1], files_used=len(_ST['elig']), files_skipped=_ST['skipped'],
+    return dict(samples=[s0, s1], files_used=len(_ST['elig']), synthetic_images=len([n for n in _ST['elig'] if n.startswith('synth')]),
+                files_skipped={k: v for k, v in _ST['skipped'].items() if not k.startswith('synth')},
                 enumerated_runs=len(_ST['plan']), interleaving_measure='query orders x displacement (C09); n/a (C11)')
 
 
